@@ -76,6 +76,11 @@ CLAIMS = {
         text="Machine-checked: every assert!/expect/index/panic!()/overflow of binary/parser.rs, decoder.rs, tracker.rs and the generated parse_operand is an explicit panic outcome of the model, and for the tables regenerated from the working tree, every byte string below 2^63 bytes and every consumer behaviour, Parser::parse returns Ok or an error value (theorem C04); load_bytes never panics (C04_loader); every decoder request on any buffer with any limit is panic-free (C11). That accepted modules assemble and disassemble without panic is decided by the differential (assembler/disassembler models are total functions), on every accepted module of the stream.",
         note="Trusted: Lean kernel + standard axioms; translators for the grammar/operand tables; hand models tied by the differential (pre-fix panic corpus, truncation at every word, hostile word substitution, word-count/opcode corruption, instruction drop/dup/swap, all structural words <= 4, every opcode nested in OpSpecConstantOp, random bytes); the unsafe &[u32]->&[u8] view of parse_words is outside the model.",
         ref="DESIGN.md §8 C04"),
+    "C18": dict(
+        technique="Lean 4 theorems over per-opcode field tables translated (every token) from the 14.5k-line generated lift/autogen_context.rs and the field declarations of sr/autogen_{ops,types,instructions}.rs: positional-reading theorem for the interpreted struct literals, kernel-checked merge walk (proved sound) of all 772 arms against the grammar table and the declarations; hand model of lift/mod.rs tied by a differential whose implementation side is the Debug text of the structured representation, canonicalised type-directed",
+        text="Machine-checked: a struct literal of plain required fields gives field j exactly operand j and leaves the rest (liftFields_req); the lifted node carries the literal's field names in order; for every arm of lift_op / lift_type / lift_branch / lift_terminator / the single-instruction lifts, the arm sits on the grammar entry of its opcode, has one field per grammar operand (result type/id apart) with that operand's variant(s) and multiplicity, and its fields are named and ordered as the declaration of the structured-representation variant it fills (C18_table); a successful conversion keeps the header's version word (C18_header). One type / constant / operation per declaration in order, function control / result / block count / terminators and phi arguments are decided by the differential with an independent oracle: C18_partial at that layer.",
+        note="Trusted: Lean kernel + standard axioms; translator lift_context.py; hand model Lift.lean (every HashMap index / unwrap / assert of lift/mod.rs an explicit panic outcome) tied by the lift channel on seeded modules of the supported subset built from the lift tables with pairwise distinct operand values (593 lift_op opcodes in the pool) and on unrestricted modules (errors and panics must agree); tools/srdebug.py.",
+        ref="DESIGN.md §8 C18"),
     "C20": dict(
         technique="Lean 4 theorem about a model of dis/main.rs composed of the parser, loader and disassembler models with the Display texts of every error; the real rspirv-dis binary is built from the working tree and run on every generated file, judged against the library in-process and against the model",
         text="Machine-checked: for every file content below 2^63 bytes the model of main terminates normally and its output is the disassembly of the loaded module plus newline, or the error's message plus newline (C20, via C04_loader). The real binary's exit status, stdout and stderr are compared with that on the C04 malformed stream; error messages are compared verbatim (all ParseState/loader/decoder Display strings, including std's Utf8Error text).",
